@@ -110,9 +110,51 @@ def check_model(model, rec):
                 break
             if any(node["name"] in n.get("inputs", []) for n in model["nodes"]):
                 rec.nontrivial_case(["model", model])
+        if not fails:
+            fails = netcdf_variant(model, text, tmp, rec)
         return fails
     finally:
         shutil.rmtree(tmp, ignore_errors=True)
+
+
+def netcdf_variant(model, text, tmp, rec):
+    """The same model over a NetCDF file, all its fuzzy results written out together at the end: once everything has run --
+    the writer included -- every fuzzy result still lies in [-1, +1]."""
+    import os
+
+    from mpilot.program import EEMS_NETCDF_LIBRARIES, Program
+
+    from . import c18
+
+    rows = model["rows"]
+    variables = []
+    for name in sorted(model["cols"]):
+        spec = model["cols"][name]
+        data = [spec["missing"] if spec["mask"] is not None and spec["mask"][r] else spec["data"][r] for r in range(rows)]
+        variables.append({"name": name, "dtype": "i8" if spec["dtype"] == "int64" else "f8", "data": data, "mask": None, "fill": None})
+    c18.make_template(os.path.join(tmp, "input.nc"), [{"name": "x", "size": rows, "values": list(range(rows))}], variables)
+    fuzzy = [n["name"] for n in model["nodes"] if n["cmd"] in R.FUZZY]
+    if not fuzzy:
+        return []
+    nc = text.replace('"input.csv"', '"input.nc"').replace("MissingVal =", "MissingValue =")
+    nc += '\nWOut = EEMSWrite(OutFileName = "out.nc", OutFieldNames = [%s], DimensionFileName = "input.nc", DimensionFieldName = "%s")\n' % (
+        ", ".join(fuzzy), sorted(model["cols"])[0])
+    try:
+        prog = Program.from_source(nc, libraries=EEMS_NETCDF_LIBRARIES, working_dir=tmp)
+        prog.run()
+    except Exception as exc:
+        rec.exclude("netcdf_variant_does_not_run:%s" % type(exc).__name__)
+        return []
+    rec.label("model_over_netcdf_with_writer")
+    for name in fuzzy:
+        res = prog.commands[name].result
+        if isinstance(res, numpy.ndarray):
+            valid = numpy.ma.getdata(res)[~numpy.ma.getmaskarray(res)].astype(float)
+            if valid.size and not ((valid >= -1.0) & (valid <= 1.0)).all():
+                cmd = [n["cmd"] for n in model["nodes"] if n["name"] == name][0]
+                return [Failure("%s|model|range_after_write" % cmd, "%s holds %r after the program (with its NetCDF writer) ran\n%s" % (
+                    name, valid[~((valid >= -1.0) & (valid <= 1.0))][0].item(), nc))]
+    return []
 
 
 PARTS = {"unit": check_unit, "model": check_model}
